@@ -349,6 +349,17 @@ def generate(rng, tier):
         rng.shuffle(names)
         sub = names[:rng.randint(1, len(names))]      # may not cover all variables
         anno = " :: int_search([%s], %s, %s, complete)" % (", ".join(sub), rng.choice(VARSEL), rng.choice(VALSEL))
+        bools = list(m.bools())
+        if bools and rng.random() < 0.5:
+            # a search over the Boolean variables as well (alone or in sequence with the integer one)
+            rng.shuffle(bools)
+            bsub = bools[:rng.randint(1, len(bools))]
+            bs = "bool_search([%s], %s, %s, complete)" % (", ".join(bsub), rng.choice(["input_order", "first_fail"]),
+                                                          rng.choice(["indomain_min", "indomain_max", "indomain_random"]))
+            if rng.random() < 0.5:
+                anno = " :: " + bs
+            else:
+                anno = " :: seq_search([%s, %s])" % (anno[4:], bs)
     obj = None
     if method == "satisfy":
         solve = "solve%s satisfy;" % anno
